@@ -95,6 +95,10 @@ pub struct Pkg {
     pub fns: Vec<FnDef>,
     /// extra raw text appended to the first file (used by error/layout variants)
     pub raw: String,
+    /// extra raw text appended to the last file
+    pub raw_last: String,
+    /// extra import lines by name (may name missing packages, the package itself, Main, ...)
+    pub extra_imports: Vec<String>,
 }
 
 #[derive(Clone, Debug, Default)]
@@ -307,7 +311,11 @@ fn gen_expr(p: &mut Prng, sc: &Scope, cur: &Pkg, want: &Ty, depth: u32) -> Expr 
                         }
                         if !cands.is_empty() {
                             let (sp, si) = *p.pick(&cands);
-                            let v = gen_expr(p, sc, cur, &Ty::Struct(sp, si), depth - 1);
+                            // receiver is a variable or a literal, never a call: goml's typer
+                            // cannot resolve `.to_string()` on a cross-package call result
+                            // ("Method to_string not found for type ExprId{..}"), a front-end
+                            // limitation outside the claimed properties
+                            let v = gen_expr(p, sc, cur, &Ty::Struct(sp, si), 0);
                             return Expr::ToString(Box::new(v));
                         }
                     }
@@ -927,6 +935,9 @@ impl Project {
                 for &i in &pk.imports {
                     h.push_str(&format!("import {}\n", self.pkgs[i].name));
                 }
+                for e in &pk.extra_imports {
+                    h.push_str(&format!("import {e}\n"));
+                }
                 h.push('\n');
                 h
             })
@@ -943,6 +954,10 @@ impl Project {
         }
         if !pk.raw.is_empty() {
             texts[0].push_str(&pk.raw);
+        }
+        if !pk.raw_last.is_empty() {
+            let last = texts.len() - 1;
+            texts[last].push_str(&pk.raw_last);
         }
         files.into_iter().zip(texts).map(|(f, t)| (f, t.into_bytes())).collect()
     }
